@@ -5,15 +5,21 @@ from h5 import gen, lean, wire
 
 ID = "C16"
 PROPS_MODULE = "H5.Props.C16"
+EXTRA_PROPS_MODULES = ["H5.Props.C16b", "H5.Props.C16bTok", "H5.Props.C16bDispatch"]
 GEN_MODULES = ["ErrorSites"]
-CORRESPONDENCE_OPS = []
+CORRESPONDENCE_OPS = ["parsex"]
 SOURCES = ["html5lib/html5parser.py", "html5lib/_tokenizer.py", "html5lib/_inputstream.py", "html5lib/constants.py"]
 LEVEL = "proof"
 TRUSTED = ["extraction of parse-error sites from the AST (tools/extract.py: ParseError dict literals, parseError(...) calls, "
            "stream errors.append) — a site with a non-literal code other than the two forwarders fails extraction",
            "Python %-formatting: a template formats iff every %(name) placeholder is a key of the supplied dict",
-           "the strict/lenient equivalence itself (same program up to the first error) is checked on the real code only"]
-RULE = ("strict vs lenient on seeded soup + EOF-truncated soup (every prefix of sampled documents) x document/fragment; "
+           "the strict/lenient equivalence is proved for the MODEL (H5.Props.C16b: C16_strict_ok / _raises / _iff / "
+           "_lenient_never_parseError) and tied to the real parser by the `parsex` correspondence (strict and lenient runs, "
+           "result tree or ParseError with the code of the error raised); stream positions and the message text are not modelled"]
+RULE = ("parsex: real HTMLParser(strict=True/False, dom) vs the composed Lean parser on fixed cases, conforming documents and "
+        "seeded soup x document/fragment x scripting x namespaceHTMLElements (tree, error codes, or ParseError with the code "
+        "raised), and the C16b statements evaluated on the real results; "
+        "strict vs lenient on seeded soup + EOF-truncated soup (every prefix of sampled documents) x document/fragment; "
         "non-trivial = the lenient parse records at least one error; distinct by (input, mode)")
 
 
@@ -148,7 +154,123 @@ def witness_case(ctx, w):
     run_one(ctx, w["input"], None)
 
 
+def real_parsex(T, text, container, scripting, nshtml, strict):
+    """the real parser (dom builder) in the format of the `parsex` op: 'ok <tree> | <n codes>' or 'err <Class>[:code]'"""
+    import html5lib
+    from html5lib import treebuilders
+    from html5lib.html5parser import ParseError
+    p = html5lib.HTMLParser(tree=treebuilders.getTreeBuilder("dom"), strict=strict, namespaceHTMLElements=nshtml)
+    try:
+        if container is None:
+            res = p.parse(text, scripting=scripting)
+        else:
+            res = p.parseFragment(text, container=container, scripting=scripting)
+    except ParseError:
+        # the exception is raised right after the error was appended: errors[-1] is the error raised
+        return "err ParseError:%s" % T.enc_str(p.errors[-1][1]), len(p.errors)
+    except RecursionError:
+        return "err RecursionError", len(p.errors)
+    except Exception as e:
+        return wire.exc_tag(e), len(p.errors)
+    return "ok %s | %s" % (T.dom_tree(res), T.enc_list(T.enc_str(c) for _pos, c, _dv in p.errors)), len(p.errors)
+
+
+def _colliding_attrs(text):
+    """a tag with both `p:x` and `x` (or two prefixes of one local name): minidom's setAttributeNode keys un-namespaced
+    attributes by the part after ':' and drops one of them (known back-end deviation, see notes_treebuilder.md);
+    such inputs are left to C01/C04, which account for it"""
+    import re
+    for tag in re.findall(r"<[A-Za-z][^<>]*>", text):
+        names = [n.lower() for n in re.findall(r"[\s/]([^\s=/>\"']+)(?==|[\s/>])", tag)]
+        local = [n.split(":", 1)[1] if ":" in n else n for n in names]
+        if any(":" in n for n in names) and len(set(local)) < len(set(names)):
+            return True
+    return False
+
+
+def strict_correspondence(ctx):
+    """real HTMLParser(strict=True/False) vs the composed Lean parser (`parsex` op), and the C16 relation on the REAL
+    results in the form the theorems state it for the model"""
+    if not ctx.driver_ok:
+        return
+    sys_path_fix()
+    import tree_corr as T
+    from html5lib._inputstream import invalid_unicode_re
+    frags = [None, None, None, "div", "table", "select", "textarea", "title", "script", "svg", "td", "html", "frameset",
+             "tr", "colgroup", "math", "plaintext", "noscript"]
+    cases = []
+    fixed = ["", "x", "<!DOCTYPE html>", "<!DOCTYPE html><title>t</title><p>x", "<p>", "<!DOCTYPE html><p></b>",
+             "<!DOCTYPE html><table><b>x", "<!DOCTYPE html><svg><p>", "<!DOCTYPE html><a b=1 b=2>", "<!DOCTYPE html>&#0;",
+             "<!DOCTYPE html><br/>", "<!DOCTYPE html><div/>", "<!DOCTYPE html></html><p>", "<!DOCTYPE html><select><input>",
+             "<!DOCTYPE html><b><p></b>x", "<!DOCTYPE html><table><tr><td></table>", "<!DOCTYPE html><frameset></frameset>x"]
+    for t in fixed:
+        cases.append((t, None, False, True))
+        cases.append((t, "div", False, True))
+    from h5 import conf
+    for i in range(ctx.scale(300, 4000)):
+        cases.append((conf.render(conf.G(ctx.rng).document()), None, ctx.rng.random() < 0.3, True))
+    for i in range(ctx.scale(3000, 60000)):
+        text = gen.soup(ctx.rng, maxparts=8)
+        if ctx.rng.random() < 0.35:
+            text = "<!DOCTYPE html>" + text
+        cases.append((text, ctx.rng.choice(frags), ctx.rng.random() < 0.3, ctx.rng.random() < 0.85))
+    reqs, reals, meta = [], [], []
+    for text, cont, sc, ns in cases:
+        if "\r" in text or invalid_unicode_re.search(text) or _colliding_attrs(text):
+            continue
+        lo = cont.lower() if cont is not None else None
+        for strict in (True, False):
+            real, nerr = real_parsex(T, text, cont, sc, ns, strict)
+            reqs.append("parsex %s %s %s %s %s" % (wire.enc_bool(strict), wire.enc_ostr(lo), wire.enc_bool(sc),
+                                                   wire.enc_bool(ns), wire.enc_str(text)))
+            reals.append(real)
+            meta.append((text, cont, sc, ns, strict, nerr))
+    out = lean.run_driver(reqs)
+    results = {}
+    for rq, real, model, m in zip(reqs, reals, out, meta):
+        text, cont, sc, ns, strict, nerr = m
+        ctx.evaluations += 1
+        ctx.case("parsex", "%s|%s|%s|%s|%s" % (strict, cont, sc, ns, text), nontrivial=nerr > 0,
+                 sample={"input": text[:80], "container": cont, "strict": strict, "real": real[:60]} if nerr else None)
+        ok = real == model or (model.startswith("ok ") and T.dom_view(model) == real)
+        if not ok and real.startswith("err ") and model.startswith("err ") and not real.startswith("err ParseError"):
+            ok = wire.same(real, model)             # other exceptions: class only (sites are C03's business)
+        if not ok:
+            ctx.disagree("parsex", rq, real, model, input={"input": text[:300], "container": cont, "strict": strict})
+        results[(text, cont, sc, ns, strict)] = real
+    ctx.ops["parsex"] = len(reqs)
+    # the statement of H5.Props.C16b on the REAL results (C16_strict_ok / C16_strict_raises / C16_strict_of_lenient_exception)
+    for (text, cont, sc, ns, strict), S in results.items():
+        if not strict:
+            continue
+        L = results.get((text, cont, sc, ns, False))
+        if L is None:
+            continue
+        inp = {"input": text[:400], "container": cont, "scripting": sc, "lenient": L[:200], "strict": S[:200]}
+        if L.startswith("ok "):
+            tree, errs = L.rsplit(" | ", 1)
+            ws = errs.split()
+            if ws[0] == "0":
+                if S != L:
+                    ctx.fail("strict-differs-without-error", "no error recorded but strict mode does not return the same tree", inp)
+            elif S != "err ParseError:%s" % ws[1]:
+                ctx.fail("strict-not-first-error", "strict mode does not raise the first recorded error", inp)
+        elif L.startswith("err ParseError"):
+            ctx.fail("lenient-raises-ParseError", "the lenient parser raised ParseError", inp)
+        elif not (S == L or S.startswith("err ParseError:")):
+            ctx.fail("strict-raises-other", "lenient raised an exception; strict raised neither the same nor ParseError", inp)
+
+
+def sys_path_fix():
+    import os
+    import sys
+    d = os.path.join(os.path.dirname(os.path.dirname(os.path.abspath(__file__))))
+    if d not in sys.path:
+        sys.path.insert(0, d)
+
+
 def run(ctx):
+    strict_correspondence(ctx)
     frags = [None, None, None, "div", "table", "select", "textarea", "title", "script", "svg", "td", "html", "frameset"]
     for i in range(ctx.scale(2500, 60000)):
         text = gen.soup(ctx.rng, maxparts=8)
